@@ -414,7 +414,9 @@ fn sjis_string(rng: &mut Rng, len: usize) -> String {
     (0..len).map(|_| sjis_char(rng)).collect()
 }
 
-const SPECIAL: [u32; 30] = [
+const SPECIAL: [u32; 43] = [
+    // code points whose low byte / UTF-16 bytes look like '\n', '\\', 'n', NUL, or the other way round
+    0x4E0A, 0x300A, 0xFF0A, 0x010A, 0x0A0A, 0x4E5C, 0x5C5C, 0xFF5C, 0x4E00, 0x4E6E, 0x6E00, 0x0A00, 0x5C00,
     0xFEFF, 0xFFFE, 0xBBEF, 0x41BF, 0xBFBB, 0xEFBB, 0x0100, 0x0001, 0x00FF, 0x00E9, 0x07FF, 0x0800, 0xD7FF, 0xE000, 0xFFFD, 0xFFFF, 0x10000,
     0x1F600, 0x10FFFF, 0xFFFFF, 0x100000, 0x2028, 0x5C, 0x6E, 0x0A, 0x0D, 0x7F, 0x80, 0x3042, 0xFF71,
 ];
@@ -648,6 +650,65 @@ fn gen_c06(rng: &mut Rng, tier: &str, lines: &mut Vec<String>) {
             }
         }
         lines.push(hs_line(&mut n, f, e, &title, &entries, src, &ops));
+    }
+    // --- exact lengths and counts: every encoded length 0..130 for the title, a key and the messages (ASCII, and a
+    // mix with double-byte characters / surrogate pairs), both formats; entry counts around powers of two
+    {
+        let fill = |len: usize, salt: usize| -> String { (0..len).map(|i| (b'a' + ((i + salt) % 23) as u8) as char).collect() };
+        // exactly `bytes` Shift-JIS bytes, double-byte katakana interleaved with ASCII
+        let sj_mix = |bytes: usize, salt: usize| -> String {
+            let mut out = String::new();
+            let mut left = bytes;
+            let mut i = salt;
+            while left > 0 {
+                if left >= 2 && i % 3 != 2 {
+                    out.push(char::from_u32(0x30A1 + (i % 80) as u32).unwrap());
+                    left -= 2;
+                } else {
+                    out.push((b'A' + (i % 26) as u8) as char);
+                    left -= 1;
+                }
+                i += 1;
+            }
+            out
+        };
+        // exactly `units` UTF-16 units, surrogate pairs and BMP characters interleaved with ASCII
+        let u_mix = |units: usize, salt: usize| -> String {
+            let mut out = String::new();
+            let mut left = units;
+            let mut i = salt;
+            while left > 0 {
+                if left >= 2 && i % 4 == 0 {
+                    out.push(char::from_u32(0x1F600 + (i % 40) as u32).unwrap());
+                    left -= 2;
+                } else if i % 4 == 1 {
+                    out.push(char::from_u32(0x4E00 + (i % 200) as u32).unwrap());
+                    left -= 1;
+                } else {
+                    out.push((b'A' + (i % 26) as u8) as char);
+                    left -= 1;
+                }
+                i += 1;
+            }
+            out
+        };
+        let max_len = 130usize;
+        for len in 0..=max_len {
+            let e = if len % 2 == 0 { "L" } else { "B" };
+            let e2 = if len % 2 == 0 { "B" } else { "L" };
+            // ASCII: title, key and message all of this length
+            lines.push(rt_line(&mut n, "S", e, &fill(len, 0), &[(fill(len, 1), fill(len, 2)), (s("zz"), fill(len, 3))]));
+            lines.push(rt_line(&mut n, "U", e2, &fill(len, 0), &[(fill(len, 1), fill(len, 2)), (s("zz"), fill(len, 3))]));
+            // mixes: double-byte characters in the Shift-JIS strings, surrogate pairs in the UTF-16 messages
+            lines.push(rt_line(&mut n, "S", e2, "t", &[(s("a"), s("x")), (sj_mix(len, 1), sj_mix(len, 2)), (s("zz"), s(""))]));
+            lines.push(rt_line(&mut n, "U", e, &sj_mix(len, 0), &[(sj_mix(len, 1), u_mix(len, 2)), (s("zz"), u_mix(len, 5))]));
+        }
+        for &count in &[0usize, 1, 2, 7, 8, 9, 15, 16, 17, 31, 32, 33, 63, 64, 65, 127, 128, 129] {
+            for (f, e) in [("S", "L"), ("U", "B")] {
+                let entries: Vec<(String, String)> = (0..count).map(|i| (format!("K{:03}", (i * 37) % 131), fill(i % 9, i))).collect();
+                lines.push(rt_line(&mut n, f, e, "cnt", &entries));
+            }
+        }
     }
     // --- size thresholds (2^8, 2^15 UTF-16 units = 2^16 bytes, 2^16 Shift-JIS bytes): messages, titles and keys whose
     // encoded length is just below / at / above them, incl. a double-byte character (or a surrogate pair)
@@ -905,7 +966,8 @@ fn encoding_sjis(s: &str) -> Vec<u8> {
 
 const C07_KEYS: [&str; 3] = ["a", "b", "c"];
 // plain (2-byte char), escape sequence, real newline between a 3-byte and a 4-byte char, backslash mix
-const C07_MSGS: [&str; 4] = ["\u{E9}", "\\n", "\u{30DE}\n\u{1F600}", "\\\\nn\\"];
+// plus code points whose low byte is 0x0A / 0x5C (U+4E0A, U+010A, U+4E5C) next to and away from real ones
+const C07_MSGS: [&str; 4] = ["\u{4E0A}\u{E9}", "\\n", "\u{30DE}\n\u{1F600}\u{010A}", "\\\\nn\\\u{4E5C}"];
 
 fn gen_c07(rng: &mut Rng, tier: &str, lines: &mut Vec<String>) {
     let thorough = tier == "thorough";
@@ -975,6 +1037,14 @@ fn gen_c07(rng: &mut Rng, tier: &str, lines: &mut Vec<String>) {
             "\u{1F600}\n\u{1F600}\n\n\u{E9}".to_string(),
             "\u{E9}\\n\u{30DE}\\\u{1F600}n\n".to_string(),
         ];
+        // code points whose low byte looks like a special ASCII byte: alone, next to a real newline /
+        // backslash / n, and away from them
+        for cp in ['\u{4E0A}', '\u{300A}', '\u{FF0A}', '\u{010A}', '\u{0A0A}', '\u{4E5C}', '\u{FF5C}', '\u{4E6E}', '\u{4E00}', '\u{0100}'] {
+            msgs.push(cp.to_string());
+            msgs.push(format!("{}\n{}", cp, cp));
+            msgs.push(format!("\\{}n{}\\n", cp, cp));
+            msgs.push(format!("ab{}cd\nef\\", cp));
+        }
         let atoms = ['A', '\u{E9}', '\u{30DE}', '\u{1F600}', '\n'];
         let mut idx = [0usize, 1, 2, 3, 4];
         // Heap's algorithm, iterative
@@ -1010,7 +1080,8 @@ fn gen_c07(rng: &mut Rng, tier: &str, lines: &mut Vec<String>) {
     // --- random long histories over a 5-key pool, messages over {'\\','n','\n','x'}
     let keys = ["a", "b", "c", "MID_キイ", ""];
     // messages mix ASCII, 2-, 3- and 4-byte UTF-8 characters with newlines, backslashes and `n`
-    let alpha = ['\\', 'n', '\n', '\n', 'x', '\u{E9}', '\u{30DE}', '\u{1F600}'];
+    // and code points whose low byte equals '\n' / '\\' / 'n' / NUL
+    let alpha = ['\\', 'n', '\n', '\n', 'x', '\u{E9}', '\u{30DE}', '\u{1F600}', '\u{4E0A}', '\u{300A}', '\u{FF0A}', '\u{010A}', '\u{4E5C}', '\u{4E6E}', '\u{4E00}', '\u{0100}'];
     // what a constructor serialises must stay inside the Shift-JIS sub-codec
     let calpha = ['\\', 'n', '\n', 'x', '\u{30DE}'];
     let count = if thorough { 4000 } else { 300 };
